@@ -410,10 +410,13 @@ pub struct SplitPlan {
 pub fn split_plan(tape: &[u32]) -> SplitPlan {
     let mut t = crate::gen::query::Tape::new(tape);
     let n = 2 + t.pick(9);
-    const BUNDLED: [&str; 8] = ["meter", "foot", "kg", "hour", "inch", "liter", "newton", "second"];
+    // short and long names of base units among them: a user unit may sort before `kg` / `m` / `s`
+    const BUNDLED: [&str; 15] = ["meter", "foot", "kg", "hour", "inch", "liter", "newton", "second", "kilogram", "kelvin", "m", "s", "candela", "mole", "ampere"];
+    // capitals sort before every lower-case name of the bundled file
+    let stem = ["zqv", "aqv", "kqv", "AAq", "Zqv"][t.pick(5)];
     let mut units: Vec<(String, String, Vec<usize>)> = vec![];
     for i in 0..n {
-        let name = format!("zqv{}x", i);
+        let name = format!("{}{}x", stem, i);
         let mut text = format!("{}", 1 + t.pick(12));
         if t.chance(30) {
             text = format!("{}|{}", text, 1 + t.pick(7));
@@ -425,7 +428,7 @@ pub fn split_plan(tape: &[u32]) -> SplitPlan {
             let factor = if i > 0 && t.chance(65) {
                 let j = t.pick(i);
                 refs.push(j);
-                let base = format!("zqv{}x", j);
+                let base = format!("{}{}x", stem, j);
                 match t.pick(4) {
                     0 => format!("kilo{}", base),
                     1 => format!("{}s", base),
